@@ -131,6 +131,7 @@ OBLIGATIONS = {
     "hist_format_changed_between_write_and_read": "a history changed a global format between a write and the read of that file",
     "hist_read_out_of_domain": "a read was fired in a state where the format does not match (not judged)",
     "hist_rewrite_under_other_format": "a file was written again under a different print format",
+    "hist_write_to_a_refused_path": "a writer was asked for a path it refuses (wrong extension, missing directory) in the middle of a history",
 }
 
 
@@ -773,6 +774,9 @@ def hist_events(variant, tier="quick"):
     for n in range(len(H_NET)):
         ev.append(("rnet", n))
     ev.append(("wkt", 0))
+    ev.append(("wbad", 0))            # writers asked for a path they refuse: a one-file GPX export to a name without .gpx,
+    ev.append(("wbad", 1))            # a GPX export into a directory that does not exist,
+    ev.append(("wbad", 2))            # a CSV export into a directory that does not exist
     return [tuple(e) for e in alpha.order(variant, ev)]
 
 
@@ -894,6 +898,13 @@ def run_event(w, ev):
     elif k == "rnet":
         srid, edges, sep, h = H_NET[ev[1]]
         res = call_read_net(name, srid, sep, h)
+    elif k == "wbad":
+        if ev[1] == 2:
+            srid, layout, sep, h, j = H_CSV[0]
+            res = call_write_csv(build_track(srid, track_rows(srid, v, j)), "no_such_dir/c.csv", layout, sep, h)
+        else:
+            res = call_write_gpx(build_track("GEO", track_rows("GEO", v, 5)), "refused.txt" if ev[1] == 0 else "no_such_dir/g.gpx")
+        _unlink("refused.txt")
     elif k == "wkt":
         def run():
             t = build_track("ENU", track_rows("ENU", v, 0))
@@ -989,6 +1000,17 @@ def _make_judge(ctx, variant):
                               case, {"expected": exp, "got": snap_a, "result": res[1] if res[0] != "ok" else "ok"})
                 return False
             ctx.outcome((k, snap_a[0], snap_a[1]))
+            return True
+        if k == "wbad":
+            # whether the writer refuses the path or not: the formats in force are the ones the caller set
+            ctx.oblige("hist_write_to_a_refused_path")
+            if res[0] == "hang":
+                ctx.violation("writer/refused-path/does-not-return", case, res[1])
+                return False
+            if snap_a != snap_b:
+                ctx.violation("writer/refused-path/global-format-not-restored", case, {"before": snap_b, "after": snap_a})
+                return False
+            ctx.outcome((k, ev[1], res[0]))
             return True
         if k in ("wcsv", "wgpx", "wnet"):
             site = {"wcsv": "writeToFile", "wgpx": "writeToGpx", "wnet": "NetworkWriter.writeToCsv"}[k]
